@@ -17,6 +17,11 @@ from core import run_impl  # noqa: E402
 from framework import Run  # noqa: E402
 
 
+# keyword statements whose op is never dropped where the generator writes them (break_loop only as last
+# statement of a forever body: the loop's back jump follows it)
+KW_OPS = {"break_loop;": "Jump", "continue;": "Jump", "end;": "End", "return;": "Return", "hold;": "Hold"}
+
+
 class TaggedGen:
     def __init__(self, r: random.Random, file: str | None = None, tag0: int = 100000):
         self.r = r
@@ -26,6 +31,8 @@ class TaggedGen:
         self.tag = tag0
         self.file = file
         self.labels: list[str] = []
+        self.in_macro = False
+        self.kw_sites: list[tuple[int, int, str]] = []   # keyword statements written directly in routines
 
     def block_start(self, off: int) -> None:
         """the keyword at offset off of the line just written begins a block (elseif / else)"""
@@ -42,6 +49,8 @@ class TaggedGen:
         line = len(self.lines)
         if stmt:
             self.stmt_starts.add((line, len(pad)))
+        if not self.in_macro and text in KW_OPS:
+            self.kw_sites.append((line, len(pad), KW_OPS[text]))
         for tag, off, kind in tagcols:
             self.sites.setdefault(tag, {"pos": [], "kind": kind, "file": self.file})["pos"].append((line, len(pad) + off))
         self.lines.append(pad + text)
@@ -185,6 +194,8 @@ class TaggedGen:
             pre = f"while {neg}("
             self.emit(ind, pre + f"{tag} < 9" + ") {", [(tag, len(pre), "cond")])
             self.block(ind + 1, depth - 1, True, in_case, macros)
+            if self.r.random() < 0.3:
+                self.emit(ind + 1, self.r.choice(["continue;", "break_loop;"]))
         else:
             i1, i2 = self.t(), self.t()
             pre = f"for ({i1} = 0; "
@@ -193,6 +204,9 @@ class TaggedGen:
             self.emit(ind, pre + mid + post, [(i1, 5, "stmt"), (tag, len(pre), "cond"), (i2, len(pre) + len(mid) + 2, "stmt")])
             self.stmt_starts.add((len(self.lines) - 1, len(self.lines[-1]) - len(self.lines[-1].lstrip()) + 5))
             self.block(ind + 1, depth - 1, True, in_case, macros)
+            if self.r.random() < 0.3:
+                # (a `continue;` here would be a jump to the label right after it, which the compiler drops)
+                self.emit(ind + 1, "break_loop;")
         self.emit(ind, "}", stmt=False)
 
     def text(self) -> str:
@@ -212,6 +226,7 @@ def gen_program(seed: str) -> dict:
     for li in reversed(range(nlib)):
         path = r.choice([f"lib{li}.exps", f"sub/lib{li}.exps"])
         g = TaggedGen(r, file=path, tag0=tag0)
+        g.in_macro = True
         for imp in used_libs:
             rel = os.path.relpath(imp, os.path.dirname(path) or ".")
             g.emit(0, f'import "./{rel}";', stmt=False)
@@ -241,6 +256,7 @@ def gen_program(seed: str) -> dict:
     for imp in used_libs:
         g.emit(0, f'import "./{imp}";', stmt=False)
     local = []
+    g.in_macro = True
     for mi in range(r.randint(0, 2)):
         name = f"main_m{mi}"
         nv = r.randint(1, 2)
@@ -253,6 +269,7 @@ def gen_program(seed: str) -> dict:
         g.emit(0, "}", stmt=False)
         local.append((name, nv, None))
     macros += local
+    g.in_macro = False
     for ri in range(r.randint(1, 2)):
         g.emit(0, f"def {ri} {{", stmt=True)
         for _ in range(r.randint(1, 4)):
@@ -265,7 +282,7 @@ def gen_program(seed: str) -> dict:
     stmt_starts[None] = g.stmt_starts
     return {"files": files, "sites": {str(k): v for k, v in sites.items()},
             "stmt_starts": {str(k): sorted(v) for k, v in stmt_starts.items()},
-            "macro_files": {n: f for n, _, f in macros}}
+            "macro_files": {n: f for n, _, f in macros}, "kw_sites": g.kw_sites}
 
 
 def tag_of_op(op: dict) -> int | None:
@@ -318,6 +335,12 @@ def check_case(case: dict, res: dict) -> list[tuple[str, str]]:
                 out.append(("macro-name-file", f"op {op}: macro {mname!r} is defined in {case['macro_files'].get(mname)!r}, entry says {fpath!r}"))
             if ret is None:
                 out.append(("no-return-address", f"op {op}: no return address"))
+    # keyword statements written directly in a routine: an op of their opcode is mapped to exactly that place
+    for line, col, code in case.get("kw_sites", []):
+        # (a jump to the end of the routine is emitted as Return)
+        codes = {code, "Return"} if code == "Jump" else {code}
+        if not any(op["code"] in codes and direct.get(op["off"]) == [line, col] for op in all_ops):
+            out.append(("keyword-statement:" + code, f"no {code} op is mapped to the keyword statement at ({line}, {col})"))
     # expansions: maximal runs of ops sharing (return address) - check the return address bounds
     for o, ent in macro.items():
         ret = ent[5]
